@@ -19,6 +19,7 @@ import (
 	"reflect"
 	"sync"
 	"sync/atomic"
+	"time"
 
 	"github.com/tdewolff/canvas"
 
@@ -474,7 +475,11 @@ func (d Driver) Run(c *core.Ctx) error {
 		"dash patterns are canonical already; dash canonicalisation is the subject of C05"}
 
 	// 1. model level: invariants and action properties of the design
-	c.TLC(tlc.Opts{Module: "Context", Config: cfg(c.Pick(3, 4), 0, "small", true), Coverage: c.Thorough(), Timeout: 0}, true)
+	// (thorough: depth 4 without -coverage, which doubles TLC's memory; coverage is collected at depth 3)
+	c.TLC(tlc.Opts{Module: "Context", Config: cfg(c.Pick(3, 4), 0, "small", true), HeapGB: 14, Timeout: 45 * time.Minute}, true)
+	if c.Thorough() {
+		c.TLC(tlc.Opts{Module: "Context", Config: cfg(3, 0, "small", true), Coverage: true}, true)
+	}
 
 	// 2. spec -> code: exhaustive BFS histories (small alphabet), random deep histories (full alphabet)
 	var nontrivial int64
@@ -513,9 +518,14 @@ func (d Driver) Run(c *core.Ctx) error {
 	}
 	run(tlc.Opts{Module: "Context", Config: cfg(3, 3, "small", false)})
 	// narrow alphabets, deep exhaustive: nested Push/Pop, z-order interleavings, Clip/Fit then flipped draws
-	run(tlc.Opts{Module: "Context", Config: cfg(c.Pick(6, 7), c.Pick(6, 7), "stack", false), Timeout: 0})
-	run(tlc.Opts{Module: "Context", Config: cfg(c.Pick(6, 7), c.Pick(6, 7), "zorder", false), Timeout: 0})
-	run(tlc.Opts{Module: "Context", Config: cfg(c.Pick(5, 6), c.Pick(5, 6), "canvas", false), Timeout: 0})
+	run(tlc.Opts{Module: "Context", Config: cfg(c.Pick(6, 7), c.Pick(6, 7), "stack", false), HeapGB: 14, Timeout: 45 * time.Minute})
+	run(tlc.Opts{Module: "Context", Config: cfg(c.Pick(6, 7), c.Pick(6, 7), "zorder", false), HeapGB: 14, Timeout: 45 * time.Minute})
+	// the canvas alphabet at depth 6 does not fit into TLC's memory (Java heap exhausted at 8 GB): depth 5 exhaustively,
+	// deeper by simulation in the thorough tier
+	run(tlc.Opts{Module: "Context", Config: cfg(5, 5, "canvas", false), Timeout: 45 * time.Minute})
+	if c.Thorough() {
+		run(tlc.Opts{Module: "Context", Config: cfg(9, 9, "canvas", false), Simulate: "num=400", Depth: 10, Seed: c.Seed + 5, Workers: 8})
+	}
 	depth := c.Pick(10, 14)
 	num := c.Pick(150, 1500) // traces per worker; every successor at the last depth is emitted (~80 scenarios per trace)
 	run(tlc.Opts{Module: "Context", Config: cfg(depth, depth, "full", false), Simulate: fmt.Sprintf("num=%d", num), Depth: depth + 1, Seed: c.Seed, Workers: 8})
@@ -544,11 +554,11 @@ func mustJSON(v any) []byte { b, _ := json.Marshal(v); return b }
 // ---- code -> spec ----------------------------------------------------------------------------
 
 type traceEv struct {
-	Op  string     `json:"op"`
-	A   []any      `json:"a"`
-	W   int        `json:"w"`
-	H   int        `json:"h"`
-	N   int        `json:"n"`             // number of events RenderTo replays after this call
+	Op  string          `json:"op"`
+	A   []any           `json:"a"`
+	W   int             `json:"w"`
+	H   int             `json:"h"`
+	N   int             `json:"n"`             // number of events RenderTo replays after this call
 	Obs json.RawMessage `json:"obs,omitempty"` // full replay list (RenderTo events only)
 }
 
